@@ -71,6 +71,9 @@ func c18History(r *rand.Rand, n int) Case {
 			switch r.Intn(10) {
 			case 0, 1, 2, 3, 4: // add
 				name := c18Names[r.Intn(len(c18Names))]
+				if r.Intn(12) == 0 {
+					name = "" // the empty string is a name like any other
+				}
 				doc := genDoc(r, o)
 				var tags []string
 				for _, t := range c18Tags {
@@ -247,7 +250,7 @@ func c18History(r *rand.Rand, n int) Case {
 				coqs = append(coqs, "DAsOne")
 				obs = append(obs, gOverlayObs(ov))
 			default: // NamedDocument
-				name := append(append([]string{}, c18Names...), "ghost", "default__1")[r.Intn(5)]
+				name := append(append([]string{}, c18Names...), "ghost", "default__1", "")[r.Intn(6)]
 				d := ds.NamedDocument(name)
 				ex := ref.ctx[name]
 				isNil := d == nil || reflect.ValueOf(d).IsNil()
@@ -271,6 +274,28 @@ func c18History(r *rand.Rand, n int) Case {
 		}
 		if len(fail) > 0 {
 			break
+		}
+	}
+	// the set serves the documents that are registered, as they are NOW: an application that edits one of them in place
+	// (through NamedDocument) sees the edit in every view asked for afterwards, also when views were asked for before
+	if len(fail) == 0 && len(ref.names) > 0 {
+		if pn := guard(func() {
+			nme := ref.names[r.Intn(len(ref.names))]
+			_ = ds.AsOne()
+			_ = ds.TaggedSubset("*")
+			d := ds.NamedDocument(nme)
+			if d == nil || reflect.ValueOf(d).IsNil() {
+				return
+			}
+			d.AddValue("edited-after-the-views-were-taken", dom.LeafNode("x"))
+			want := nodeToAny(d)
+			for vi, ov := range []dom.OverlayDocument{ds.AsOne(), ds.TaggedSubset("*")} {
+				if l := ov.Layers()[nme]; l == nil || !reflect.DeepEqual(nodeToAny(l), want) {
+					fail = append(fail, fmt.Sprintf("view %d taken after an in-place edit of the document registered as %q does not show the edit", vi, nme))
+				}
+			}
+		}); pn != "" {
+			fail = append(fail, "panic: "+pn)
 		}
 	}
 	return Case{Kind: "docset-history", Desc: map[string]any{"steps": descs},
@@ -323,7 +348,7 @@ func c18BigReader(r *rand.Rand, idx int) Case {
 func init() {
 	register(&Prop{
 		ID:   "C18",
-		Rule: "histories of 1-25 steps over 3 names (so re-adds occur) and 3 tags: AddDocument / AddDocumentFromReader (YAML) / AddUnnamedDocument with options in {none, WithTags, MergeTags, MustCreate}, given in random order (the same tags also split over two WithTags), interleaved with TaggedSubset(ts) (incl. '*', an unknown tag and the empty request), AsOne() (must equal TaggedSubset('*')), NamedDocument(n) (incl. unknown names). After every step the return status / LayerNames + every layer's content / served document vs the Coq model and vs a Go-side plain reference; no query may panic. An eighth of the histories are mostly unnamed adds (more than ten generated names); reader adds are sometimes preceded by a rejected add of undecodable text. An eighth of the cases: the pipeline template function mergeFiles over 1-3 YAML files = their ordered append-merge. Non-trivial: history re-adds a name successfully. Distinct by Gallina term. A third of the histories use tags that contain one another; re-adds sometimes pass the very document object that is stored; every 128th case adds a reader source of more than a mebibyte (YAML or JSON). Tags spread from a prefix of one caller-owned slice with spare capacity; views edited at and below the top level before the set is queried again. An eighth of the cases (docset-batch): 2-6 steps of AddDocumentsFromDirectory (two directories met again and again, 1-4 YAML/JSON files written per step, one in six undecodable, six glob patterns incl. one matching nothing), AddDocumentsFromManifest (ConfigMap data / Secret stringData items as YAML/JSON documents, undecodable items, a missing manifest; the order in which the map of items was walked is read off the new layers), AddPropertiesFromManifest (dotted and indexed item names), all under the four option sets, interleaved with the three queries, against ds_add_files / ds_add_items / props_doc of the model.",
+		Rule: "histories of 1-25 steps over 3 names (so re-adds occur; now and then the empty string is the name) and 3 tags: AddDocument / AddDocumentFromReader (YAML) / AddUnnamedDocument with options in {none, WithTags, MergeTags, MustCreate}, given in random order (the same tags also split over two WithTags), interleaved with TaggedSubset(ts) (incl. '*', an unknown tag and the empty request), AsOne() (must equal TaggedSubset('*')), NamedDocument(n) (incl. unknown names). After every step the return status / LayerNames + every layer's content / served document vs the Coq model and vs a Go-side plain reference; no query may panic. An eighth of the histories are mostly unnamed adds (more than ten generated names); reader adds are sometimes preceded by a rejected add of undecodable text. An eighth of the cases: the pipeline template function mergeFiles over 1-3 YAML files = their ordered append-merge. Non-trivial: history re-adds a name successfully. Distinct by Gallina term. A third of the histories use tags that contain one another; re-adds sometimes pass the very document object that is stored; every 128th case adds a reader source of more than a mebibyte (YAML or JSON). Tags spread from a prefix of one caller-owned slice with spare capacity; views edited at and below the top level before the set is queried again. An eighth of the cases (docset-batch): 2-6 steps of AddDocumentsFromDirectory (two directories met again and again, 1-4 YAML/JSON files written per step, one in six undecodable, six glob patterns incl. one matching nothing), AddDocumentsFromManifest (ConfigMap data / Secret stringData items as YAML/JSON documents, undecodable items, a missing manifest; the order in which the map of items was walked is read off the new layers), AddPropertiesFromManifest (dotted and indexed item names), all under the four option sets, interleaved with the three queries, against ds_add_files / ds_add_items / props_doc of the model.",
 		Gen: func(r *rand.Rand, tier string, idx int) Case {
 			if idx%8 == 7 { // the pipeline template function mergeFiles: a document set of files, merged in order
 				o := defaultOpts()
